@@ -17,7 +17,7 @@ STUBS = ['injector, taps, recording sink']
 ASSUMPTIONS = ['reference recurrence written from the statement; the committed bucket after a yellow packet is not '
                'specified, so a colour is only demanded where both readings (left / emptied) agree',
                'FLOAT workloads: relative tolerance 1e-9 on instants, 1e-6 on the conformance inequality']
-PROBES = ['precoloured_packets', 'rate_assigned_after_construction', 'packet_larger_than_bucket', 'bucket_exactly_empty_then_back_to_back', 'idle_longer_than_fill_time',
+PROBES = ['clock_origin_nonzero', 'precoloured_packets', 'rate_assigned_after_construction', 'packet_larger_than_bucket', 'bucket_exactly_empty_then_back_to_back', 'idle_longer_than_fill_time',
           'waited_for_tokens', 'peak_spacing', 'green', 'yellow', 'red', 'trtb_no_pir']
 
 
@@ -48,6 +48,11 @@ def gen(rng, tier):
         if rng.random() < 0.12:
             # the rate is assigned to the public attribute after construction (once the shaper's process has started)
             case['late_rate'] = rng.choice([8, 12345, rate * 4])
+    if mode == 'GRID' and rng.random() < 0.2:
+        # a clock that does not start at zero (negative origins included): the bucket is full when the shaper is created
+        case['t0'] = rng.choice([-10, -1000.5, 5, 64, -0.125])
+    if case['elem'] == 'TRTB' and case.get('pir') and rng.random() < 0.06:
+        case['pbs'] = 0              # a peak bucket of size zero: every packet waits for its peak tokens
     if rng.random() < 0.15:
         # packets already coloured by an upstream meter: this meter's verdict replaces the colour
         case['precoloured'] = True
@@ -55,7 +60,8 @@ def gen(rng, tier):
 
 
 def run(case):
-    w = NetWorld()
+    t0 = case.get('t0', 0)
+    w = NetWorld(t0)
     env = w.env
     if case.get('elem') == 'TRTB':
         tb = TwoRateTokenBucket(env, case['cir'], case['cbs'], case.get('pir'), case.get('pbs'))
@@ -80,9 +86,11 @@ def run(case):
                 p.color = ('red', 'yellow', 'green')[p.packet_id % 3]
                 return tap.put(p)
         tap = PreColour()
-    start_injector(w, tap, [tuple(x) for x in case.get('workload', [])])
+    start_injector(w, tap, [tuple([t0 + x[0]] + list(x[1:])) for x in case.get('workload', [])])
     w.run(max_steps=20000)
     viol, stats, nontrivial = check(w, case)
+    if case.get('t0'):
+        stats['clock_origin_nonzero'] = 1
     if case.get('precoloured'):
         stats['precoloured_packets'] = 1
     if case.get('late_rate') and case.get('elem') != 'TRTB':
@@ -120,9 +128,9 @@ def check(w, case):
     else:
         rate, B, peak = case['rate'], case['bucket'], case.get('peak')
     L = B
-    last = 0.0
+    last = case.get('t0', 0)          # "initially full" at the instant the shaper is created, whatever the clock shows
     Lc_a = Lc_b = case.get('cbs')     # committed bucket under two readings of "yellow"
-    lastc = 0.0
+    lastc = case.get('t0', 0)
     prev_fwd = None
     nontrivial = False
     debits = []
